@@ -460,4 +460,73 @@ def check_c15(pid, tier, seed, replay, t0):
           (pid, len(table), len(bad), len(rej), len(rej_bad), len([t for t in thms if t[1]]), len(thms), time.time() - t0))
     return 1 if violations else 0
 
-STATIC = {"C15": check_c15}
+def check_c16(pid, tier, seed, replay, t0):
+    from . import c16
+    os.system("rm -f '%s'/replays/%s-*" % (ROOT, pid))
+    known = [k for k in load_known() if k.get("property") == pid and k.get("status") == "known"]
+    known_cells = {(k["signature"]["row"], k["signature"]["col"]): k for k in known}
+    violations, broken = [], []
+    res = {}
+    try:
+        res = c16.run()
+        c16.write_table(res, known)
+    except core.BuildBroken as e:
+        broken.append("translator corr.C16.table: %s\n%s" % (e.what, e.output[-1500:]))
+    coq_s = core.ensure_coq()
+    forb = core.grep_forbidden()
+    thms = []
+    try:
+        thms, _ = theorem_status(pid)
+        thms = thms or []
+    except core.ObligationBroken as e:
+        broken.append("theorem C16_table_ok (AV/Props/C16.v) no longer checks against the regenerated table:\n" + e.output[-800:])
+    d = os.path.join(ROOT, "replays"); os.makedirs(d, exist_ok=True)
+    holes, bad_controls, known_seen = [], [], []
+    for (r, c), v in sorted(res.items()):
+        if not v["control_accepted"]:
+            bad_controls.append((r, c, v))
+        if not v["probe_rejected"]:
+            if (r, c) in known_cells:
+                known_seen.append((r, c))
+            else:
+                holes.append((r, c, v))
+    for r, c, v in holes[:12]:
+        probe, control = c16.probe_source(r, c)
+        path = os.path.join(d, "%s-%s-%s.rs" % (pid, r, c))
+        open(path, "w").write("// C16 violation: this program must NOT compile (handle-producing method `%s`, conflicting action %s), but rustc accepts it against /repo.\n"
+                              "// Context: see probes/c16/src/main.rs (prelude with setup/touch helpers).\n%s\n// its conflict-free control:\n%s" % (r, c, probe, control))
+        print("  failing input: method=%s action=%s : the conflicting program compiles" % (r, c))
+        violations.append("VIOLATION property=%s replay=%s" % (pid, path))
+    for r, c, v in bad_controls[:12]:
+        probe, control = c16.probe_source(r, c)
+        path = os.path.join(d, "%s-control-%s-%s.rs" % (pid, r, c))
+        open(path, "w").write("// C16 violation: this conflict-free program must compile, but rustc rejects it (%s).\n%s" % (",".join(v["control_codes"]), control))
+        print("  failing input: method=%s action=%s : the conflict-free control is rejected (%s)" % (r, c, ",".join(v["control_codes"])))
+        violations.append("VIOLATION property=%s replay=%s" % (pid, path))
+    if forb:
+        broken.append("forbidden words: " + "; ".join(forb[:5]))
+    open_thms = [t for t in thms if not t[1]]
+    if open_thms:
+        broken.append("theorems not closed: " + ", ".join(t[0] for t in open_thms))
+    if broken and not violations:
+        path = os.path.join(d, "%s-broken-obligation.json" % pid)
+        json.dump(dict(property=pid, broken=broken, note="no failing program was found by the search"), open(path, "w"), indent=1)
+        violations.append("VIOLATION property=%s replay=%s no-failing-input-found" % (pid, path))
+    for (r, c) in known_seen:
+        k = known_cells[(r, c)]
+        print("KNOWN-FINDING: property=%s %s (%s)" % (pid, k["what"], k["id"]))
+    for v in violations:
+        print(v)
+    static_evidence(pid, tier, seed, t0, "proof", thms, dict(
+        obligations=len(thms) + 1 + (1 if not thms else 0), discharged=len([t for t in thms if t[1]]) + (1 if res and not holes and not bad_controls else 0),
+        programs=2 * len(res), cells=len(res), known_findings_printed=["%s/%s" % rc for rc in known_seen], new_holes=len(holes), rejected_controls=len(bad_controls),
+        error_codes=dict(collections.Counter(c for v in res.values() for c in v["codes"])),
+        evaluations=2 * len(res), distinct_nontrivial=2 * len(res),
+        rule="one probe (conflicting program) and one control (same program without the conflict) per (handle-producing method, conflicting action class); all compiled by rustc in one cargo check, errors attributed to functions by line",
+        samples=[c16.probe_source(r, c)[0] for (r, c) in list(sorted(res))[:: max(1, len(res) // 4)]][:5] or ["<none>"],
+        exhaustive=True, coq_build_s=round(coq_s, 1)), violations)
+    print("%s: %d cells, %d known findings, %d new holes, %d rejected controls, theorems %d/%d closed, %.0fs" %
+          (pid, len(res), len(known_seen), len(holes), len(bad_controls), len([t for t in thms if t[1]]), len(thms), time.time() - t0))
+    return 1 if violations else 0
+
+STATIC = {"C15": check_c15, "C16": check_c16}
